@@ -32,6 +32,7 @@ def scenarios(tier, seed):
             P = lambda f: a + span * f      # noqa
             variants = [
                 [{"op": "integrate", "cbs": [{"kind": "noop"}, {"kind": "noop"}, {"kind": "noop"}]}],
+                [{"op": "integrate", "cbs": [{"kind": "noop"}, {"kind": "noop"}, {"kind": "mutatelist", "at": 3}]}],      # the caller's list is edited mid-run
                 [{"op": "integrate", "cbs": [{"kind": "setdt", "vals": [abs(span) / 16.0, None, abs(span) / 5.0]}, {"kind": "noop"}]}],
                 [{"op": "integrate", "events": [{"kind": "time", "c": P(0.3)}, {"kind": "time", "c": P(0.6), "term": True}], "cbs": [{"kind": "noop"}, {"kind": "noop"}]},
                  {"op": "integrate", "cbs": [{"kind": "noop"}]}],
